@@ -319,6 +319,27 @@ func outcomeFactsOf(callee *ssa.Function, idx int, want outcome, depth int) []Co
 			out = append(out, f)
 		}
 	}
+	// a bool result that is one merged value (`ok := a && b; ...; return ok`): the outcome is the truth of that value,
+	// whatever its alternatives have in common - the rules that understand a merged condition get it as it is
+	if want == outTrue || want == outFalse {
+		var merged ssa.Value
+		same := true
+		for _, r := range ReturnInstrs(callee) {
+			if idx >= len(r.Results) {
+				same = false
+				break
+			}
+			v := rawRetVal(r, idx)
+			if merged == nil {
+				merged = v
+			} else if merged != v {
+				same = false
+			}
+		}
+		if _, isPhi := merged.(*ssa.Phi); same && isPhi {
+			out = append(out, Cond{V: merged, True: want == outTrue})
+		}
+	}
 	return out
 }
 
